@@ -15,6 +15,11 @@ def parseOp (s : String) : Option Op :=
   else if s.startsWith "L" then (fromHex (s.drop 1).toString).map Op.setLoc
   else none
 
+/-- `q<hex path>`: the handler replaces the request (Context.SetRequest) by one with another URL path; the Logger reads the
+    request from the context after the handler, so this only changes the context the Logger sees (`Ctx.path`) -/
+def rewrittenPath (beh : String) (path : Bytes) : Bytes :=
+  ((beh.splitOn "+").filter (·.startsWith "q")).foldl (fun p s => (fromHex (s.drop 1).toString).getD p) path
+
 def parseBeh (s : String) : List Op :=
   if s == "-" || s == "d" || s == "" then [] else (s.splitOn "+").filterMap parseOp
 
@@ -74,7 +79,8 @@ def handleItem (gres rres : String) (item : String) : ItemOut :=
       routeMatched := kind == "route",
       routeResolver := resolverOf rres router,
       routerResolver := router,
-      remoteIP := fromHex! ripH, method := method, host := fromHex! hostH, path := fromHex! pathH }
+      remoteIP := fromHex! ripH, method := method, host := fromHex! hostH,
+      path := if beh == "d" then fromHex! pathH else rewrittenPath beh (fromHex! pathH) }
     let ops := if beh == "d" then defaultOps kind method else parseBeh beh
     let (s', recs) := logger (fun s => runOps s ops) c {}
     let trace := join (s'.events ++ ["H"] ++ recs.map (fun _ => "R")) "."
